@@ -14,6 +14,7 @@ MODEL_FIELDS = {
     "msgdry": ["res", "st"],
     "msgh": ["res", "hreq", "st"],
     "acth": ["res", "dst", "bal"],
+    "dispatchh": ["res", "hreq", "bal", "st"],
     "query": ["res", "out", "next", "total"],
     "export": ["st"],
     "reimport": ["valid", "init", "same", "st"],
@@ -28,6 +29,8 @@ MODEL_FIELDS = {
     "fault": ["_"],
     "swapctl": ["_"],
     "setup": ["_"],
+    "drybegin": ["_"],
+    "dryend": ["_"],
     "cmpstacks": ["same"],
     "cb": ["same"],
 }
@@ -42,7 +45,7 @@ class Step:
         self.op = line.split(" ", 1)[0]
         self.impl_raw = impl_raw
         self.model_raw = model_raw
-        if self.op in ("pure", "deposit", "fault", "swapctl", "setup"):
+        if self.op in ("pure", "deposit", "fault", "swapctl", "setup", "drybegin", "dryend"):
             # single-token results (may contain '='): compared as a whole; the model may append " #<guard tag>" for the evidence
             tag = None
             if " #" in model_raw:
